@@ -90,6 +90,8 @@ def gen_case(rng, path=None, small=False):
             for k in NAMES:
                 if rng.random() < 0.4:
                     nd[k] = max(1, T - rng.randint(1, 3))
+    if path != 'v4' and rng.random() < 0.04:
+        nd[rng.choice(NAMES)] = 0          # an array (or the attached flags stream) for which no dump was written at all
     chunks = {}
     for k in NAMES:
         chunks[k] = [rnd_chunks(rng, nd[k]), rnd_chunks(rng, F)]
@@ -296,6 +298,8 @@ def run_cases(ctx, cases, tag='c06'):
         ctx.count('dumps=' + ('equal' if len(set(case['nd'].values())) == 1 else 'differ'))
         ctx.count('lost=' + ('0' if nlost == 0 else '1-3' if nlost <= 3 else '4+'))
         ctx.count('l1=%d' % int(bool(case.get('l1'))))
+        if 0 in case['nd'].values():
+            ctx.count('an_array_without_any_dump')
 
 
 # ----------------------------------------------------------------------------- side ties
@@ -762,6 +766,228 @@ def tie_chunk_info(ctx, given=None):
     ctx.extra['chunk_info_cases_vs_impl'] = len(mouts)
 
 
+# ---- processing options between the chunk store and the user (van_vleck, weight power scaling, applycal)
+
+def gen_option_case(rng, path=None):
+    path = path or rng.choice(['vfw', 'vfw', 'source', 'v4'])
+    T, F = rng.randint(2, 4), rng.randint(1, 3)
+    if path == 'v4':
+        ants = rng.choice([['m000'], ['m000', 'm001']])
+        prods = [list(p) for p in fv4.bls_ordering_for(ants)]
+    else:
+        ants = []
+        n_in = rng.choice([1, 2, 2])
+        labels = ['m000h', 'm000v'][:n_in]
+        prods = [[a, a] for a in labels] + [[a, b] for a in labels for b in labels if a != b and rng.random() < 0.8]
+        prods += [[labels[0], labels[0]]] if rng.random() < 0.2 else []      # a repeated autocorrelation: the last one counts
+        rng.shuffle(prods)
+    B = len(prods)
+    chunks = {k: [rnd_chunks(rng, T), rnd_chunks(rng, F)] + ([] if k == 'weights_channel' else [rnd_chunks(rng, B)])
+              for k in NAMES}
+    p = rng.choice([0.15, 0.3, 0.5, 1.0])
+    only = rng.choice(list(NAMES) + ['correlator_data', 'correlator_data', None, None, None])
+    lost = {k: [list(map(int, i)) for i in fx.all_chunk_indices(chunks[k])
+                if rng.random() < (p if only in (None, k) else 0.0)] for k in NAMES}
+    pre = []
+    for n in [T, F][:rng.choice([0, 0, 1, 2])]:
+        a, b = sorted(rng.sample(range(n + 1), 2))
+        pre.append([a, b] if rng.random() < 0.8 else None)
+    applycal = bool(path == 'v4' and rng.random() < 0.5)
+    scaled = True if applycal else rng.random() < 0.45
+    return dict(kind='options', path=path, T=T, F=F, B=B, ants=ants, prods=prods, chunks=chunks, lost=lost, pre=pre,
+                van_vleck=rng.choice(['off', 'autocorr', 'autocorr']), scaled=scaled, applycal=applycal,
+                seed=rng.randint(0, 10 ** 6), nd={k: T for k in NAMES}, l1=False)
+
+
+def _option_loader(case, tmp):
+    """Returns (load() -> dict(vis, weights, flags), lose()): the same reader store serves both loads."""
+    import dask
+    from katdal.chunkstore_npy import NpyFileChunkStore
+    from katdal.vis_flags_weights import ChunkStoreVisFlagsWeights
+    from katdal.datasources import TelstateDataSource
+    vals = fx.make_values(case)
+    pre = case['pre']
+    if case['path'] == 'v4':
+        from fixtures import c13cal
+        kw = dict(van_vleck=case['van_vleck'])
+        pk = {}
+        if len(pre) > 0 and pre[0] is not None:
+            pk['dumps'] = slice(pre[0][0], pre[0][1])
+        if len(pre) > 1 and pre[1] is not None:
+            pk['channels'] = slice(pre[1][0], pre[1][1])
+        if pk:
+            kw['preselect'] = pk
+        okw = {}
+        extra = {}
+        if case['applycal']:
+            ants = case['ants']
+            g = [[[2, 0] if (i + j) % 2 == 0 else [0, 4] for j in range(len(ants))] for i in range(2)]
+            cal = dict(antlist=ants, pol_ordering=['h', 'v'], center_freq=1284e6, bandwidth=856e6 / 1024 * case['F'],
+                       n_chans=case['F'], products={'G': [[-1, g]]})
+            extra = dict(telstate_hook=c13cal.cal_hook(cal), archived_override=['sdp_l0', 'cal'])
+            okw = dict(applycal=['l1.G'])
+        x = fv4.build_v4(T=case['T'], F=case['F'], ants=tuple(case['ants']), arrays={k: vals[k] for k in NAMES},
+                         chunks={k: tuple(tuple(c) for c in case['chunks'][k]) for k in NAMES}, tmp=tmp,
+                         seed=case['seed'], need_weights_power_scale=not case['scaled'], source_kwargs=kw,
+                         open_kwargs=okw, acts=((0, 'track'),), construct=False, **extra)
+        store, info = x.store, x.chunk_info
+
+        def load():
+            with dask.config.set(scheduler='sync'):
+                d = fv4.reopen(x, kw, okw)
+                return dict(vis=np.asarray(d.vis[:]), weights=np.asarray(d.weights[:]), flags=np.asarray(d.raw_flags[:]))
+    else:
+        store = NpyFileChunkStore(tmp)
+        info = {k: fx.write_array(store, 'cb-sdp-l0', k, vals[k], case['chunks'][k], []) for k in NAMES}
+        prods = [tuple(p) for p in case['prods']]
+        if case['path'] == 'vfw':
+            def load():
+                with dask.config.set(scheduler='sync'):
+                    v = ChunkStoreVisFlagsWeights(store, {k: dict(i) for k, i in info.items()}, corrprods=prods,
+                                                  stored_weights_are_scaled=case['scaled'], van_vleck=case['van_vleck'],
+                                                  preselect_index=fx.to_slices(pre))
+                    return dict(vis=v.vis.compute(), weights=v.weights.compute(), flags=v.flags.compute())
+        else:
+            import katsdptelstate
+            from katdal.datasources import view_l0_capture_stream
+            ts = katsdptelstate.TelescopeState()
+            cs = ts.view(ts.join('cb', 'sdp_l0'))
+            sv = ts.view('sdp_l0')
+            cs['chunk_info'] = info
+            cs['first_timestamp'] = 10.0
+            sv['sync_time'] = 1600000000.0
+            sv['int_time'] = 2.0
+            sv['bls_ordering'] = np.array(prods)
+            sv['need_weights_power_scale'] = not case['scaled']
+            sv['stream_type'] = 'sdp.vis'
+            ts['sdp_archived_streams'] = ['sdp_l0']
+            view, cbid, sn = view_l0_capture_stream(ts, 'cb', 'sdp_l0')
+            pk = {}
+            if len(pre) > 0 and pre[0] is not None:
+                pk['dumps'] = slice(pre[0][0], pre[0][1])
+            if len(pre) > 1 and pre[1] is not None:
+                pk['channels'] = slice(pre[1][0], pre[1][1])
+
+            def load():
+                with dask.config.set(scheduler='sync'):
+                    v = TelstateDataSource(view, cbid, sn, chunk_store=store, van_vleck=case['van_vleck'],
+                                           preselect=pk or None).data
+                    return dict(vis=v.vis.compute(), weights=v.weights.compute(), flags=v.flags.compute())
+
+    def lose():
+        import os
+        for k in NAMES:
+            i = info[k]
+            for idx in case['lost'].get(k, []):
+                sl = fx.chunk_slices([list(c) for c in i['chunks']], idx)
+                os.remove(os.path.join(store.path, i['prefix'], k, '_'.join('%05d' % s.start for s in sl) + '.npy'))
+    return load, lose, vals
+
+
+def auto_positions(prods):
+    """corrprod_to_autocorr as the property needs it: position of the LAST (a, a) product per input"""
+    pos = {}
+    for i, (a, b) in enumerate(prods):
+        if a == b:
+            pos[a] = i
+    return [pos[a] for a, _ in prods], [pos[b] for _, b in prods]
+
+
+def check_option_case(ctx, case, tag='c06opt'):
+    tmp = fv4.scratch_dir(tag)
+    feats = 'options;path=%s;vv=%s;scaled=%d;applycal=%d' % (case['path'], case['van_vleck'], int(case['scaled']),
+                                                              int(case['applycal']))
+    try:
+        try:
+            load, lose, vals = _option_loader(case, tmp)
+            r0 = load()
+            lose()
+            r = load()
+        except Exception as e:     # noqa: BLE001
+            ctx.disagree('%s;symptom=raises:%s' % (feats, type(e).__name__), case, repr(e)[:300], None,
+                         'loading a store with absent chunks raised under a processing option')
+            return None
+    finally:
+        fx.rmtree(tmp)
+    pys, anylost = py_spec(case, vals)
+    # masks inside the window
+    T, F, B = case['T'], case['F'], case['B']
+    miss = {}
+    for k in NAMES:
+        m = np.zeros((T, F) if k == 'weights_channel' else (T, F, B), bool)
+        for idx in case['lost'].get(k, []):
+            m[fx.chunk_slices(case['chunks'][k], idx)] = True
+        miss[k] = m
+    sel = tuple(slice(None) if w is None else slice(w[0], w[1]) for w in case['pre'])
+    sel = sel + (slice(None),) * (2 - len(sel))
+    mv = miss['correlator_data'][sel]
+    mw = (miss['weights'] | miss['weights_channel'][..., None])[sel]
+    i1, i2 = auto_positions(case['prods'])
+    a1, a2 = mv[..., i1], mv[..., i2]
+    have_corrprods = 1
+    combos = sorted({(int(v), int(x), int(y), int(w)) for v, x, y, w in zip(mv.ravel(), a1.ravel(), a2.ravel(), mw.ravel())})
+    mo = ctx.model([[60, [have_corrprods, int(case['scaled'])] + list(c)] for c in combos]) if ctx.model_ok else None
+    if mo is None:
+        divided = not case['scaled']
+        table = {c: [0 if c[0] else 1, 0 if c[3] else (1 if divided and (c[1] or c[2]) else 2), 1, 2 ** 32] for c in combos}
+    else:
+        table = dict(zip(combos, mo))
+    vcls = np.array([table[(int(v), int(x), int(y), int(w))][0] for v, x, y, w in
+                     zip(mv.ravel(), a1.ravel(), a2.ravel(), mw.ravel())]).reshape(mv.shape)
+    wcls = np.array([table[(int(v), int(x), int(y), int(w))][1] for v, x, y, w in
+                     zip(mv.ravel(), a1.ravel(), a2.ravel(), mw.ravel())]).reshape(mv.shape)
+    num, den = (table[combos[0]][2], table[combos[0]][3]) if combos else (1, 2 ** 32)
+    bad = np.float32(num) / np.float32(den)
+    if r['vis'].shape != mv.shape or r0['vis'].shape != mv.shape or r['weights'].shape != mv.shape or r['flags'].shape != mv.shape:
+        ctx.disagree('%s;symptom=shape' % feats, case, [list(r['vis'].shape), list(r['weights'].shape), list(r['flags'].shape)],
+                     list(mv.shape), 'shape of a load under processing options')
+        return None
+    # visibilities: exactly zero where their own chunk is lost, as without the loss elsewhere
+    ev = np.where(vcls == 0, np.complex64(0), r0['vis'])
+    if not np.array_equal(r['vis'], ev):
+        at = np.argwhere(r['vis'] != ev)[0].tolist()
+        sym = 'lost_not_zeroed' if vcls[tuple(at)] == 0 else 'present_changed'
+        ctx.disagree('%s;obs=vis;symptom=%s' % (feats, sym), case,
+                     dict(at=at, impl=repr(r['vis'][tuple(at)]), expected=repr(ev[tuple(at)]), product=case['prods'][at[2]]),
+                     None, 'visibilities of a load with lost chunks under van_vleck=%s' % case['van_vleck'],
+                     spec=dict(at=at, expected=repr(ev[tuple(at)])))
+    # weights: zero / bad_weight * stored weight / as without the loss
+    sw = (vals['weights'].astype(np.float32) * vals['weights_channel'][..., None])[sel]
+    ew = np.where(wcls == 0, np.float32(0), np.where(wcls == 1, bad * sw, r0['weights'])).astype(np.float32)
+    if not np.array_equal(np.asarray(r['weights'], np.float32), ew):
+        at = np.argwhere(np.asarray(r['weights'], np.float32) != ew)[0].tolist()
+        sym = {0: 'lost_not_zeroed', 1: 'not_the_bad_weight', 2: 'present_changed'}[int(wcls[tuple(at)])]
+        ctx.disagree('%s;obs=weights;symptom=%s' % (feats, sym), case,
+                     dict(at=at, impl=float(r['weights'][tuple(at)]), expected=float(ew[tuple(at)]), product=case['prods'][at[2]]),
+                     None, 'weights of a load with lost chunks (stored_weights_are_scaled=%s)' % case['scaled'],
+                     spec=dict(at=at, expected=float(ew[tuple(at)])))
+    # flags: the options do not touch them
+    fl = np.asarray(r['flags']).astype(np.int64)
+    if not np.array_equal(fl, pys['flags']):
+        ctx.disagree('%s;obs=flags;symptom=%s' % (feats, classify('flags', fl, pys['flags'])), case,
+                     first_bad(fl, pys['flags']), None, 'flags of a load with lost chunks under processing options',
+                     spec=first_bad(fl, pys['flags']))
+    ctx.traces_validated += 1
+    return bool(anylost.any())
+
+
+def tie_options(ctx, given=None):
+    rng = ctx.rng
+    cases = list(given) if given else [gen_option_case(rng) for _ in range(ctx.scale(30, 500))] + \
+        [gen_option_case(rng, path='v4') for _ in range(ctx.scale(4, 60))]
+    for case in cases:
+        nt = check_option_case(ctx, case)
+        ctx.note_case(('options', repr(sorted(case.items(), key=lambda kv: kv[0]))), nontrivial=bool(nt),
+                      sample=dict(kind='options', path=case['path'], van_vleck=case['van_vleck'], scaled=case['scaled'],
+                                  applycal=case['applycal'], prods=case['prods'], chunks=case['chunks']))
+        ctx.count('options_path=' + case['path'])
+        ctx.count('options_van_vleck=' + case['van_vleck'])
+        ctx.count('options_scaled=%d' % int(case['scaled']))
+        ctx.count('options_applycal=%d' % int(case['applycal']))
+        ctx.count('options_lost_vis=%d' % int(bool(case['lost']['correlator_data'])))
+    ctx.extra['option_cases_vs_impl'] = len(cases)
+
+
 # ---- histories
 
 def gen_history(rng, small=True):
@@ -801,7 +1027,7 @@ def gen_history(rng, small=True):
     for _ in range(rng.randint(2, 4)):
         # some chunks go, some arrive (possibly with new values), then a load
         for _ in range(rng.choice([0, 1, 2, 4])):
-            k = rng.choice(NAMES)
+            k = rng.choice([n for n in NAMES if allidx[n]])
             i = rng.choice(allidx[k])
             steps.append(['del', k, i])
             if i not in absent[k]:
@@ -1011,6 +1237,7 @@ def run(ctx):
     rng = ctx.rng
     hist = [gen_history(rng) for _ in range(ctx.scale(110, 2500))]
     run_histories(ctx, hist)
+    tie_options(ctx)
     cases = [gen_case(rng) for _ in range(ctx.scale(450, 6000))]
     cases += [gen_case(rng, small=True) for _ in range(ctx.scale(150, 1500))]
     cases += [gen_case(rng, path='v4', small=True) for _ in range(ctx.scale(6, 200))]
@@ -1038,6 +1265,8 @@ def replay(ctx, doc):
     kind = case.get('kind')
     if kind == 'history':
         run_histories(ctx, [case], tag='c06rp')
+    elif kind == 'options':
+        tie_options(ctx, [case])
     elif kind == 'prune_raw':
         tie_prune_raw(ctx, [case])
         ctx.note_case(('prune_raw', repr(case)))
